@@ -12,9 +12,9 @@ L9 = dict(overlays=OVL, harness='harness/C09/lz4.c', extra_sources=[],
                    'copies <= CQV_MEMCPY_EXACT bytes exact)'])
 # compressor slices: the pure arithmetic is delegated to ghost lemma functions whose contracts replace their calls
 L9S = dict(L9, trusted=L9['trusted'] + [
-    'harness/C09/lz4.c: contracts of the arithmetic lemmas cqv_lemma_space/ext/inv/last/post are assumed at their call '
-    'sites (requires checked there); proved separately by the jobs c09_lz4_lemma_* (ext: proved; space/inv/last/post: '
-    'undecided by z3/cvc5/cadical so far, see their notes)'])
+    'harness/C09/lz4.c: contracts of the arithmetic lemmas cqv_lemma_space/ext/inv/last/post replace their calls '
+    '(requires checked at each call site); each contract is proved for all arguments by the job c09_lz4_lemma_<name> '
+    '(space, ext, inv, last, post: all proved), which uses the same REQ/ENS macros'])
 L10 = dict(overlays=OVL, harness='harness/C10/lz4.c')
 FZ_D = dict(kind='fuzz', harness='replay/fz/lz4_decompress.c', sources=['src/compression/lz4.c'],
             max_len=48, secs=20)
@@ -41,12 +41,12 @@ JOBS = [
     # C09: pure arithmetic lemmas used (as replaced contracts) by the compressor slices; all arguments, SMT
 ] + [
     dict(name='c09_lz4_lemma_' + nm, prop='C09', entry='h_lemma_' + nm, loop_contracts=False,
-         backend=(['z3', 'cvc5', 'cadical'] if nm == 'ext' else 'cadical'), timeout=1800, wip=(nm != 'ext'),
-         functions=[], tier='thorough',
+         backend=(['z3', 'cvc5', 'cadical'] if nm == 'ext' else 'cadical'), timeout=3600, wip=False,
+         functions=[], tier='thorough', est_s=est,
          note='' if nm == 'ext' else 'explicit chain of asserted-then-assumed steps (quotient facts, pairwise distributivity of 255*, '
-              'sums of two inequalities, cancellation); REQ/ENS macros shared with the contract',
+              'sums of two inequalities, cancellation; sums taken apart in written order); REQ/ENS macros shared with the contract',
          **L9)
-    for nm in ['space', 'ext', 'inv', 'last', 'post']
+    for nm, est in [('space', 1450), ('ext', 120), ('inv', 720), ('last', 1070), ('post', 990)]
 ] + [
     # C09 + C10: compressor, one contract / one set of loop invariants, obligations split over slices (select=):
     #   every write inside dst, result <= bound, a bound-sized buffer always succeeds (the four internal space
@@ -56,7 +56,7 @@ JOBS = [
          replace=['lz4_count'] + LEMMAS, unwindset=UW, min_loop_obligations=mlo,
          select=sel, timeout=5400, mem_gb=12, backend='cadical', cbmc_flags=['--slice-formula'],
          replayer=FZ_C, wip=False, tier='thorough', est_s=est,
-         note='ok relative to the arithmetic lemma contracts listed in trusted (c09_lz4_lemma_ext proved; space/inv/last/post undecided)',
+         note='uses the arithmetic lemma contracts listed in trusted; all five are proved by c09_lz4_lemma_*',
          **L9S)
     for nm, sel, mlo, est in [
         ('assigns', r'\.assigns\.', 0, 530),
